@@ -304,6 +304,34 @@ where
         debug!(?policy, "scheduling policy for execution");
         let is_leader = policy.party == policy.leader;
 
+        // A schedule that is invalid for the current state is rejected before anything else is
+        // done: it must neither stop the state machine of a computation that is under way (an
+        // ill-typed program below) nor replace its channel endpoints (init_channel).
+        let state_ok = match &self.state_kind {
+            PolicyStateKind::Init => true,
+            PolicyStateKind::ValidateRequested { .. } => !is_leader,
+            _ => false,
+        };
+        if !state_ok {
+            let state = format!("{:?}", self.state_kind);
+            let computation_id = policy.computation_id;
+            let err = if is_leader {
+                ScheduleError::InvalidStateLeader {
+                    computation_id,
+                    state,
+                }
+            } else {
+                ScheduleError::InvalidStateFollower {
+                    computation_id,
+                    state,
+                }
+            };
+            ret_err(ret, err);
+            // keep the state machine for this computation running in case
+            // of an erronous schedule
+            return ControlFlow::Continue(self);
+        }
+
         let typed_program = match garble_lang::check(&policy.program) {
             Ok(prg) => prg,
             Err(err) => {
@@ -319,16 +347,6 @@ where
         self.init_channel(&policy);
 
         if is_leader {
-            if !matches!(self.state_kind, PolicyStateKind::Init) {
-                ret_err(
-                    ret,
-                    ScheduleError::InvalidStateLeader {
-                        computation_id: policy.computation_id,
-                        state: format!("{:?}", self.state_kind),
-                    },
-                );
-                return ControlFlow::Continue(self);
-            }
             record_span_fields(&self.start_span, &policy.computation_id, policy.party);
             let client = self.client_builder.new_client(&policy);
 
@@ -450,15 +468,7 @@ where
                     let _ = ret.send(Ok(()));
                 }
                 state => {
-                    ret_err(
-                        ret,
-                        ScheduleError::InvalidStateFollower {
-                            computation_id: policy.computation_id,
-                            state: format!("{state:?}"),
-                        },
-                    );
-                    // keep the state machine for this computation running in case
-                    // of an erronous schedule
+                    // every other state has been rejected above, before any side effect
                     self.state_kind = state;
                 }
             }
